@@ -250,8 +250,8 @@ class InterDefs:
             f, d = frontier.pop()
             for n in ast.walk(f.node):
                 if isinstance(n, ast.Call):
-                    tgt = program.resolve_expr(f.module, n.func, f)
-                    if isinstance(tgt, FuncInfo) and tgt.module is root.module and tgt.cls is None and tgt.node is not root.node:
+                    tgt = program.resolve_callee(f.module, n.func, f)
+                    if isinstance(tgt, FuncInfo) and tgt.module is root.module and (tgt.cls is None or (root.cls is not None and tgt.cls is root.cls)) and tgt.node is not root.node:
                         self.sites.setdefault(tgt.key, []).append((f, n))
                         if tgt.key not in {g.key for g in self.scope} and d < depth:
                             self.scope.append(tgt)
@@ -286,13 +286,21 @@ class InterDefs:
                     if n.id in params and g.node is not self.root.node:
                         i = params.index(n.id)
                         for caller, call in self.sites.get(g.key, []):
-                            if i < len(call.args):
-                                work.append((caller, call.args[i]))
+                            # a method called as obj.m(a, b): the first parameter is the receiver
+                            if g.cls is not None and isinstance(call.func, ast.Attribute):
+                                if i == 0:
+                                    work.append((caller, call.func.value))
+                                    continue
+                                j = i - 1
+                            else:
+                                j = i
+                            if j < len(call.args):
+                                work.append((caller, call.args[j]))
                             for k in call.keywords:
                                 if k.arg == n.id:
                                     work.append((caller, k.value))
                 elif isinstance(n, ast.Call):
-                    tgt = self.P.resolve_expr(g.module, n.func, g)
+                    tgt = self.P.resolve_callee(g.module, n.func, g)
                     if isinstance(tgt, FuncInfo) and tgt.key in self.by_key and ("ret", tgt.key) not in seen:
                         seen.add(("ret", tgt.key))
                         for r in ast.walk(tgt.node):
